@@ -33,6 +33,8 @@ structure Frame where
   tab : Int := 0
   /-- the local slice `tabs` (tbc() only) -/
   acc : List Int := []
+  /-- the local `primary` (resize() only): the primary screen before the resize -/
+  old : Grid := []
 
 def Frame.get (s : Frame) : Loc → Int
   | .curRow => s.e.cur.row
@@ -181,6 +183,10 @@ def evalG (pm : List Param) (s : Frame) : Stmt → List Int → Grid → M (Grid
     let g' ← modCell g (evalEx pm s lvs r) (evalEx pm s lvs c) (fun x => { x with g := s.cell.g, w := s.cell.w })
     .ok (g', .norm)
   | .loadCell _ _, _, g => .ok (g, .norm)    -- excluded by `wf`
+  | .allocAlt _, _, g => .ok (g, .norm)      -- excluded by `wf`
+  | .allocPrimary _, _, g => .ok (g, .norm)  -- excluded by `wf`
+  | .fillRows _, _, g => .ok (g, .norm)      -- excluded by `wf`
+  | .clampSaved _ _, _, g => .ok (g, .norm)  -- excluded by `wf`
   | .tabsNew, _, g => .ok (g, .norm)         -- excluded by `wf`
   | .tabsAppendTab, _, g => .ok (g, .norm)   -- excluded by `wf`
   | .tabsStore, _, g => .ok (g, .norm)       -- excluded by `wf`
@@ -231,6 +237,37 @@ def evalS (pm : List Param) : Stmt → Frame → M (Frame × Sig)
     let e' ← callFn f (match arg with | some x => evalEx pm s [] x | none => 0) s.e
     .ok ({ s with e := e' }, .norm)
   | .unknown _, s => .ok (s, .norm)
+  | .prim .snapshotPrimary, s => .ok ({ s with old := s.e.primary }, .norm)
+  | .prim .activePrimary, s => .ok ({ s with e := { s.e with altActive := false } }, .norm)
+  | .prim .activeBySmcup, s => .ok ({ s with e := { s.e with altActive := s.e.mode.smcup } }, .norm)
+  | .prim .reflowOld, s => do
+    -- `last` is local 2 of resize()
+    let e' ← reflow Fixes.current (s.vars 2) s.old 0 s.e
+    .ok ({ s with e := e' }, .norm)
+  | .allocAlt h, s =>
+    -- make([][]cell, h) panics on a negative length
+    if evalEx pm s [] h < 0 then .error .oob
+    else .ok ({ s with e := { s.e with alt := List.replicate (evalEx pm s [] h).toNat [] } }, .norm)
+  | .allocPrimary h, s =>
+    if evalEx pm s [] h < 0 then .error .oob
+    else .ok ({ s with e := { s.e with primary := List.replicate (evalEx pm s [] h).toNat [] } }, .norm)
+  | .fillRows w, s =>
+    -- no iteration: `make([]cell, w)` is never evaluated
+    if s.e.alt.isEmpty then .ok (s, .norm)
+    else if evalEx pm s [] w < 0 then .error .oob
+    else if s.e.primary.length < s.e.alt.length then .error .oob      -- vt.primaryScreen[i]
+    else
+      let blank : Row := List.replicate (evalEx pm s [] w).toNat {}
+      .ok ({ s with e := { s.e with alt := s.e.alt.map (fun _ => blank),
+                                    primary := (s.e.primary.take s.e.alt.length).map (fun _ => blank) ++
+                                               s.e.primary.drop s.e.alt.length } }, .norm)
+  | .clampSaved h w, s =>
+    let hh := evalEx pm s [] h
+    let ww := evalEx pm s [] w
+    let cl (sv : Saved) : Saved :=
+      { sv with cur := { sv.cur with row := if sv.cur.row > hh - 1 then hh - 1 else sv.cur.row,
+                                     col := if sv.cur.col > ww - 1 then ww - 1 else sv.cur.col } }
+    .ok ({ s with e := { s.e with savedP := cl s.e.savedP, savedA := cl s.e.savedA } }, .norm)
   | .tabsNew, s => .ok ({ s with acc := [] }, .norm)
   | .tabsAppendTab, s => .ok ({ s with acc := s.acc ++ [s.tab] }, .norm)
   | .tabsStore, s => .ok ({ s with e := { s.e with tabs := s.acc } }, .norm)
